@@ -442,3 +442,17 @@ for _p in ("C04", "C07", "C10"):
     PROPS[_p]["level_text"] += ("; plus a multi-threaded real-clock family (2-4 concurrent sender tasks on a 2-4-thread runtime, random yields / "
                                "sleeps, injected faults) judged by the invariant oracles only (never two live processes; per sender and priority "
                                "FIFO, exactly once; every ticket resolved when the job ends); thorough tier also runs that family under ThreadSanitizer")
+
+# end-to-end slices through the production binary (hooks off)
+for _p, _txt in (("C12", "; an end-to-end slice runs random flag subsets through the production binary with --only-emit-events "
+                         "--emit-events-to=json-stdio, touches one probe file per source plus sentinels and compares the reported set "
+                         "with the same table"),
+                 ("C17", "; an end-to-end slice lets the production binary start the helper command after real file changes with "
+                         "--emit-events-to=environment and checks that every changed file is recoverable from the environment the "
+                         "command actually received (COMMON joined with an entry), entries unique and byte-sorted")):
+    PROPS[_p]["extra"] = {"script": "wxcli.py", "shards": 2}
+    PROPS[_p]["needs_cli"] = True
+    PROPS[_p]["needs_vchild"] = True
+    PROPS[_p]["level_text"] += _txt
+PROPS["C12"]["tiers"]["quick"]["budget"] = 25
+PROPS["C12"]["tiers"]["thorough"]["budget"] = 120
